@@ -348,6 +348,36 @@ fn accessor(bytes: &[u8], op: &str) -> String {
                 res(r, |el| format!("{}:{}", el.raw_data().len(), seq.verif_raw().len()))
             }
         },
+        // stack consumed by `Display` of the element (one recursion level per nesting level), measured as the span
+        // of the addresses of a local of the `fmt::Write` sink; runs in its own 64 MiB thread so that the measurement
+        // itself cannot overflow.  Corpus only (not in ACCESSORS): the value depends on the build.
+        "fmt_stack" => {
+            struct Sink(usize, usize);
+            impl std::fmt::Write for Sink {
+                fn write_str(&mut self, _s: &str) -> std::fmt::Result {
+                    let marker = 0u8;
+                    let a = &marker as *const u8 as usize;
+                    self.0 = self.0.min(a);
+                    self.1 = self.1.max(a);
+                    Ok(())
+                }
+            }
+            let data = bytes.to_vec();
+            let r = std::thread::Builder::new()
+                .stack_size(64 * 1024 * 1024)
+                .spawn(move || {
+                    use std::fmt::Write as _;
+                    let mut s = Sink(usize::MAX, 0);
+                    let ok = write!(&mut s, "{}", TLVElement::new(&data)).is_ok();
+                    (ok, s.1.saturating_sub(s.0))
+                })
+                .map(|h| h.join());
+            match r {
+                Ok(Ok((true, span))) => format!("ok:{}", span),
+                Ok(Ok((false, _))) => "e:fmt".into(),
+                _ => "panic".into(),
+            }
+        }
         "seq_fmt" => match seq_of(&e) {
             None => "nc".into(),
             Some(seq) => {
@@ -1056,8 +1086,18 @@ fn gen_bytes(r: &mut Rng, out: &mut Out, thorough: bool) -> Vec<u8> {
     b
 }
 
-fn accessor_ops(r: &mut Rng, bytes: &[u8]) -> Vec<String> {
+fn accessor_ops(r: &mut Rng, bytes: &[u8], thorough: bool) -> Vec<String> {
     let mut ops: Vec<String> = ACCESSORS.iter().map(|s| s.to_string()).collect();
+    // the driver's list-based model of the recursive `Display` is cubic in the nesting depth: in the thorough tier
+    // (30 000 inputs, nesting to 300) the two formatting ops run on every input of at most 128 bytes and on 1 in 8
+    // of the longer ones (quick tier: on every input)
+    if thorough && bytes.len() > 128 && !r.chance(1, 8) {
+        ops.retain(|o| o != "fmt" && o != "seq_fmt");
+    }
+    // `tlv` = `tag` + `value`, `total_len` = the public name of `container_len`: 1 input in 4 in the thorough tier
+    if thorough && !r.chance(1, 4) {
+        ops.retain(|o| o != "tlv" && o != "total_len");
+    }
     // context ids present in the input + a few others
     let mut ids: Vec<u8> = vec![0, 1, 2, 255];
     for w in bytes.windows(2) {
@@ -1084,7 +1124,7 @@ pub fn gen(a: &Args) -> String {
     let mut out = Out::default();
     out.buf.push_str(RULE);
     out.buf.push('\n');
-    let n_a = if a.thorough { 40_000 } else { 8_000 };
+    let n_a = if a.thorough { 30_000 } else { 8_000 };
     let n_w = if a.thorough { 12_000 } else { 3_000 };
     let n_s = if a.thorough { 8_000 } else { 2_000 };
     let mut id = 0u64;
@@ -1092,7 +1132,7 @@ pub fn gen(a: &Args) -> String {
         let mut cr = r.fork();
         let b = gen_bytes(&mut cr, &mut out, a.thorough);
         out.stat(&format!("a_len_{}", len_bucket(b.len())), 1);
-        let ops = accessor_ops(&mut cr, &b);
+        let ops = accessor_ops(&mut cr, &b, a.thorough);
         run_case(&mut out, &Case { id, kind: format!("a {}", hex(&b)), ops });
         id += 1;
     }
